@@ -1,0 +1,64 @@
+//go:build verif
+
+// Contracts for the verification harness in /verif (comment-only; no declarations).
+package decorator
+
+//@ pred validDC(c) = c != nil && c.dc != nil && c.resources != nil && c.dynClient != nil && c.dynClient.resources != nil && c.dynClient.dc != nil && c.parentSelector != nil && c.parentSelector.labelSelectors != nil && c.parentSelector.annotationSelectors != nil && c.finalizer != nil && c.customize != nil && c.syncHook != nil && c.finalizeHook != nil && c.queue != nil && c.eventRecorder != nil
+
+//@ func updateStringMap(dest, updates) (changed)
+//@   requires dest != nil
+//@   safety C13
+//@   writes [C16,C17] dest
+//@   bind loop 1: k, v
+//@   invariant loop 1 [C16]: forall x string :: visited(1, x) ==> (ite(updates[x] == nil, !has(dest, x), has(dest, x) && dest[x] == *updates[x]))
+//@   invariant loop 1 [C16]: forall x string :: !visited(1, x) ==> has(dest, x) == old(has(dest, x)) && dest[x] == old(dest[x])
+//@   invariant loop 1 [C16,C01]: changed == (exists x string :: visited(1, x) && (has(dest, x) != old(has(dest, x)) || dest[x] != old(dest[x])))
+//@   ensures [C16] forall x string :: has(updates, x) ==> (ite(updates[x] == nil, !has(dest, x), has(dest, x) && dest[x] == *updates[x]))
+//@   ensures [C16] forall x string :: !has(updates, x) ==> has(dest, x) == old(has(dest, x)) && dest[x] == old(dest[x])
+//@   ensures [C16,C01] changed == (exists x string :: has(dest, x) != old(has(dest, x)) || dest[x] != old(dest[x]))
+
+//@ func decoratorSelector.Matches(ds, obj) (r)
+//@   pure
+//@   requires ds != nil && obj != nil
+//@   safety C13
+//@   let key = selectorMapKey(fst(common.ParseAPIVersion(obj.GetAPIVersion())), obj.GetKind())
+//@   ensures [C16] r ==> has(ds.labelSelectors, key) && has(ds.annotationSelectors, key) && matchesLabelsOf(ds.labelSelectors[key], obj) && matchesAnnotationsOf(ds.annotationSelectors[key], obj)
+//@   ensures [C16] ds.labelSelectors[key] != nil && ds.annotationSelectors[key] != nil && matchesLabelsOf(ds.labelSelectors[key], obj) && matchesAnnotationsOf(ds.annotationSelectors[key], obj) ==> r
+
+//@ pred validDCInformers(c) = forall k schema.GroupVersionResource :: (has(c.childInformers, k) && c.childInformers[k] != nil ==> validInformer(c.childInformers[k])) && (has(c.parentInformers, k) && c.parentInformers[k] != nil ==> validInformer(c.parentInformers[k]))
+
+//@ func decoratorController.getChildren(c, parent) (m, err)
+//@   requires validDC(c) && validDCInformers(c) && parent != nil
+//@   safety C13
+//@   bind loop 2: idx, obj
+//@   at Insert(mm, p, o) [C02,C16,C03]: o == obj && hasCtrl(o) && ctrlUID(o) == str(parent.GetUID()) && annotation(o, decoratorControllerAnnotation) == c.dc.Name && cached(o)
+//@   invariant loop 1 [C03]: childMap != nil && noNilChildren(childMap)
+//@   invariant loop 2 [C03]: childMap != nil && noNilChildren(childMap)
+//@   ensures [C03] err == nil ==> m != nil && noNilChildren(m)
+//@   ensures [C03] err != nil ==> m == nil
+
+//@ func decoratorController.callHook(c, parent, observedChildren, related) (resp, err)
+//@   requires validDC(c) && parent != nil
+//@   safety C13
+//@   let finalizing = c.finalizeHook.IsEnabled() && (parent.GetDeletionTimestamp() != nil || !c.parentSelector.Matches(parent))
+//@   at Call(h, req, out) [C10]: (h == c.finalizeHook && finalizing) || (h == c.syncHook && !finalizing && c.syncHook.IsEnabled())
+//@   at Call(h, req, out) [C10]: typeis(req, *v1.DecoratorHookRequest) && unbox(req, *v1.DecoratorHookRequest).Finalizing == finalizing
+//@   at Call(h, req, out) [C03]: unbox(req, *v1.DecoratorHookRequest).Object == parent && unbox(req, *v1.DecoratorHookRequest).Controller == c.dc
+//@   ensures [C10] count(Call) <= 1
+//@   ensures [C13] err != nil ==> resp == nil
+//@   invariant loop 1 [C03]: forall j int :: 0 <= j && j <= rangeindex ==> response.Attachments[j] == nil || response.Attachments[j].GetNamespace() != "" || parent.GetNamespace() == ""
+//@   ensures [C03] err == nil && resp != nil ==> (forall j int :: 0 <= j && j < len(resp.Attachments) ==> resp.Attachments[j] == nil || resp.Attachments[j].GetNamespace() != "" || parent.GetNamespace() == "")
+
+//@ func updateStrategyMap.GetMethod(m, apiGroup, kind) (r)
+//@   safety C13
+//@   let key = updateStrategyMapKey(apiGroup, kind)
+//@   ensures [C06] r == ite(m[key] == nil || m[key].Method == "", v1alpha1.ChildUpdateOnDelete, m[key].Method)
+
+//@ func makeUpdateStrategyMap(resources, dc) (m, err)
+//@   requires resources != nil && dc != nil
+//@   safety C13
+//@   let A = dc.Spec.Attachments
+//@   invariant loop 1 [C06]: rangeindex < len(A)
+//@   invariant loop 1 [C06]: m != nil && (forall j int :: 0 <= j && j <= rangeindex && A[j].UpdateStrategy != nil && A[j].UpdateStrategy.Method != v1alpha1.ChildUpdateOnDelete ==> m[resources.Get(A[j].APIVersion, A[j].Resource).Kind + "." + fst(common.ParseAPIVersion(A[j].APIVersion))] != nil)
+//@   ensures [C06] err == nil ==> m != nil && (forall j int :: 0 <= j && j < len(A) && A[j].UpdateStrategy != nil && A[j].UpdateStrategy.Method != v1alpha1.ChildUpdateOnDelete ==> m[resources.Get(A[j].APIVersion, A[j].Resource).Kind + "." + fst(common.ParseAPIVersion(A[j].APIVersion))] != nil)
+//@   // the value stored is the rule's own strategy unless a later rule has the same key (last rule wins): not claimed, the nested quantifier makes the obligation slow
